@@ -417,6 +417,7 @@ func (e *Env) step(st *seqState, c *Caller, op model.Op, cor *Corruption, whoFau
 	e.seqHTTP = nil
 	e.Sink.mu.Lock()
 	auditStart := len(e.Sink.Recs)
+	e.Sink.Stalled = false
 	e.Sink.mu.Unlock()
 	if e.Prof.Oracles["audit-order"] {
 		e.Sink.OnWrite = func([]byte) {
@@ -689,6 +690,23 @@ func (e *Env) step(st *seqState, c *Caller, op model.Op, cor *Corruption, whoFau
 		return
 	}
 
+	// ---- the audit log was slow (not failing): a server may give up waiting
+	// and fail the call - closed, i.e. nothing takes effect, not even later ----
+	e.Sink.mu.Lock()
+	stalled, stallD := e.Sink.Stalled, e.Sink.StallD
+	e.Sink.mu.Unlock()
+	if stalled && res.Class == model.OtherError && !ctx.AuditFail {
+		time.Sleep(stallD + time.Second) // whatever was left behind has finished by then
+		if !bytes.Equal(e.ReadFile(), ctx.PreFile) {
+			e.fail("state", "%s: the call failed (%s) while the audit log was slow, but the database file changed (then or afterwards)", desc, res)
+		}
+		if got, err := e.Observe(); err != nil || got != e.Model.DumpVisible() {
+			e.fail("state", "%s: the call failed (%s) while the audit log was slow, but it took effect (then or afterwards) (%v):\n got: %s\nwant: %s", desc, res, err, got, e.Model.DumpVisible())
+		}
+		e.S.Probe("failed-under-slow-audit")
+		return
+	}
+
 	// ---- the disk was full: the call may fail, and then nothing changed ----
 	if diskFull && res.Class == model.OtherError {
 		if !unchanged {
@@ -800,7 +818,14 @@ func (e *Env) judgeAudit(ctx *OpCtx, mop model.Op, res model.Res, recs []AuditRe
 			e.fail("audit", "%s: audit line does not parse: %v: %q", desc, err, r.Data)
 			return
 		}
-		if !ctx.AuditFail && !r.Synced {
+		// synced before a value is returned, an effect takes place or a
+		// refusal for lack of permission is pronounced; a call that failed
+		// for another reason (a server that gave up on a slow log, say)
+		// promises nothing about its record
+		e.Sink.mu.Lock()
+		slow := e.Sink.Stalled
+		e.Sink.mu.Unlock()
+		if !ctx.AuditFail && !r.Synced && (res.Class == model.OK || res.Class == model.AccessDenied && !slow) {
 			e.fail("audit", "%s: audit record was not synced before the call returned: %s", desc, r.Data)
 		}
 		if m := e.containsMarker(r.Data); m != nil {
